@@ -113,4 +113,5 @@ class FoersterRelaxationTensor(RelaxationTensor):
             for bb in range(self.dim):
                 if aa != bb:
  
-                    self.data[aa,bb,aa,bb] -= (ht[aa,Nt-1]+ht[bb,Nt-1])
+                    self.data[aa,bb,aa,bb] -= (ht[aa,Nt-1]
+                                               +numpy.conj(ht[bb,Nt-1]))
